@@ -415,6 +415,31 @@ func (h *vhandler) waker(vc *vconn) {
 	sp := vc.spec
 	rng := vsup.NewRng(sp.seed*37 + 5)
 	for k := 0; k < sp.wakes; k++ {
+		if rng.Intn(2) == 0 {
+			// an asynchronous write of nothing: still a request whose callback belongs on the loop, exactly once
+			a0 := h.newReq()
+			kind := []string{"AsyncWriteEmpty", "AsyncWritevEmpty", "AsyncWritevNil"}[rng.Intn(3)]
+			h.rec.emit("AIssue", "a", a0, "c", sp.id, "kind", kind, "w", 0, "k", 0, "len", 0, "g", vsup.Goid())
+			cb0 := func(c Conn, err error) error {
+				h.rec.emit("ACb", "a", a0, "c", sp.id, "err", errClass(err), "g", vsup.Goid())
+				atomic.AddInt32(&h.pendingCb, -1)
+				return nil
+			}
+			atomic.AddInt32(&h.pendingCb, 1)
+			var err0 error
+			switch kind {
+			case "AsyncWriteEmpty":
+				err0 = vc.c.AsyncWrite([]byte{}, cb0)
+			case "AsyncWritevEmpty":
+				err0 = vc.c.AsyncWritev([][]byte{}, cb0)
+			default:
+				err0 = vc.c.AsyncWritev(nil, cb0)
+			}
+			h.rec.emit("AIssued", "a", a0, "err", errClass(err0))
+			if err0 != nil {
+				atomic.AddInt32(&h.pendingCb, -1)
+			}
+		}
 		a := h.newReq()
 		h.rec.emit("AIssue", "a", a, "c", sp.id, "kind", "Wake", "w", 0, "k", 0, "len", 0, "g", vsup.Goid())
 		err := vc.c.Wake(func(c Conn, err error) error {
